@@ -32,7 +32,7 @@ RULE = ('DAGs with tags on keyword, positional (index-keyed) and **kwargs argume
         'condition on everything outside the predicted substitutions. Non-trivial: >=1 argument '
         'matched and >=1 tagged argument not matched; distinct = (DAG sketch, op).')
 RULE_ADDITIONS = (' Added by the rounds of seeded changes (DESIGN 9.7): ' +
-                  'raises:tagged-positional-argument (set_tagged / replace / iterate) | TypeError | fix: index assignment for int keys')
+                  'raises:tagged-positional-argument (set_tagged / replace / iterate) | TypeError | fix: index assignment for int keys; a class constructed by its own annotated __new__ under an inherited __init__; valueless TaggedValue in *args (known finding)')
 RULE = RULE + RULE_ADDITIONS
 ASSUMPTIONS = [
     'the substituted value itself carries no arguments tagged with the selected tag',
